@@ -254,3 +254,93 @@ PRED_SIG = {
     "set_has": ["set", "p"], "set_big": ["set"], "bset_has": ["bset", "p"], "bset_top": ["bset"],
     "cp_top": ["cp"], "cp_nonbot": ["cp"], "b_is": ["bool"], "pair_ge": ["pair"],
 }
+
+
+# ------------------------------------------------------------------ self checks (run by the tie on every check)
+
+DOMAINS = {
+    "p": list(range(0, 8)),
+    "max": [0, 1, 2, 3, 5, 8, 12],
+    "dual": [0, 1, 2, 3, 5, 8, 13],
+    "dv": [0, 1, 2, 3, 5, 8],
+    "opt": [0, 1, 2, 4, 9, 10],
+    "bool": [0, 1],
+    "pair": [0, 1, 3, PAIRK, PAIRK + 1, 2 * PAIRK, 2 * PAIRK + 3],
+    "prod": [0, 1, 3, PAIRK, PAIRK + 1, 2 * PAIRK, 2 * PAIRK + 3],
+    "set": [0, 1, 2, 3, 5, 6, 12, 255],
+    "bset": [0, 1, 2, 3, 6, 12, -1],
+    "cp": [-1, 0, 1, 2, 3, 9, -2],
+}
+
+
+def order(ty, a, b):
+    """a below b in the order the vocabulary respects for a variable of this kind"""
+    if ty == "p":
+        return a == b
+    if ty == "dv":
+        return b <= a
+    return leq(ty, a, b)
+
+
+def _tuples(tys):
+    if not tys:
+        yield ()
+        return
+    for a in DOMAINS[tys[0]]:
+        for rest in _tuples(tys[1:]):
+            yield (a,) + rest
+
+
+def selfcheck():
+    """lattice laws of the codes on the sample domains; every function is monotone, every predicate upward closed"""
+    bad = []
+    for ty in LTYPES:
+        dom = DOMAINS[ty]
+        for a in dom:
+            for b in dom:
+                j = join(ty, a, b)
+                if not (leq(ty, a, j) and leq(ty, b, j) and join(ty, b, a) == j and join(ty, a, a) == a):
+                    bad.append("join %s %s %s" % (ty, a, b))
+                for c in dom:
+                    if leq(ty, a, c) and leq(ty, b, c) and not leq(ty, j, c):
+                        bad.append("lub %s %s %s %s" % (ty, a, b, c))
+    for fn, (res, sig) in FUN_SIG.items():
+        f = FUNS[fn][3]
+        for xs in _tuples(sig):
+            for ys in _tuples(sig):
+                if all(order(t, x, y) for t, x, y in zip(sig, xs, ys)) and not order(res, f(*xs), f(*ys)):
+                    bad.append("function %s not monotone at %s <= %s" % (fn, xs, ys))
+    for pn, sig in PRED_SIG.items():
+        f = PREDS[pn][3]
+        for xs in _tuples(sig):
+            for ys in _tuples(sig):
+                if all(order(t, x, y) for t, x, y in zip(sig, xs, ys)) and f(*xs) and not f(*ys):
+                    bad.append("predicate %s not upward closed at %s <= %s" % (pn, xs, ys))
+    for x in DOMAINS["dual"]:
+        for y in DOMAINS["dual"]:
+            if order("dual", x, y) and not order("dv", PARTIALS["undual"][5](x), PARTIALS["undual"][5](y)):
+                bad.append("undual")
+    return bad
+
+
+def coq_table():
+    """(expressions, expected python values): the Coq vocabulary must compute the same codes"""
+    exprs, want = [], []
+    for ty, (tid, _) in LTYPES.items():
+        for a in DOMAINS[ty]:
+            for b in DOMAINS[ty]:
+                exprs.append("lat_jm %d%%nat (%d) (%d)" % (tid, a, b))
+                j = join(ty, a, b)
+                want.append((j, j != a))
+    for fn, (res, sig) in FUN_SIG.items():
+        for xs in _tuples(sig):
+            exprs.append("lv_fun %d%%nat [%s]" % (FUNS[fn][0], "; ".join("(%d)" % x for x in xs)))
+            want.append(FUNS[fn][3](*xs))
+    for pn, sig in PRED_SIG.items():
+        for xs in _tuples(sig):
+            exprs.append("lv_pred %d%%nat [%s]" % (PREDS[pn][0], "; ".join("(%d)" % x for x in xs)))
+            want.append(bool(PREDS[pn][3](*xs)))
+    for x in DOMAINS["set"]:
+        exprs.append("lv_gen 2%%nat [(%d)]" % x)
+        want.append(GENS["set_elems"][3](x))
+    return exprs, want
